@@ -32,7 +32,7 @@ fn main() {
         let mut rng = case_rng(args.seed, i);
         let mut a_ex = Impl::new(); // under test: receives only the steps
         let mut b_ex = Impl::new(); // receives the steps and the probes
-        let mut g = Gen { rng: &mut rng, now: 0, deadlines: vec![], lens: vec![] };
+        let mut g = Gen { rng: &mut rng, now: 0, deadlines: vec![], lens: vec![], hot: false };
         let nsteps = g.rng.gen_range(8..=maxsteps.max(8));
         let mut last: Snapshot = vec![];
         let mut terms: Vec<String> = Vec::new();
